@@ -16,9 +16,11 @@
 //	stmt           -> vsched.Yield("file.go:line"); stmt   in web, security, identity, rdp ("fine" rule: a
 //	                  statement-level scheduling point, active only in scenarios that set vsched.Fine)
 //
-// select statements with communication clauses and range-over-channel loops
-// are not modelled: if one appears in a rewritten package the tool exits 2
-// (infrastructure failure), never reporting a violation.
+//	v, ok := <-ch  -> vsched.ChanRecv2(ch);  close(ch) -> vsched.ChanClose(ch)
+//	select { ... } -> a block that registers one case object per communication clause, asks the scheduler
+//	                  which clause proceeds (vsched.Select) and switches on the answer
+//	for v := range ch { -> for { v, ok := vsched.ChanRecv2(ch); if !ok { break }; ...  (the repository's packages
+//	                  are type-checked against the export data of their dependencies to find the loops over channels)
 package main
 
 import (
@@ -26,9 +28,13 @@ import (
 	"flag"
 	"fmt"
 	"go/ast"
+	"go/importer"
 	"go/parser"
 	"go/token"
+	"go/types"
+	"io"
 	"os"
+	"os/exec"
 	"path/filepath"
 	"sort"
 	"strings"
@@ -76,6 +82,11 @@ func main() {
 		if err != nil {
 			die("package directory %s: %v", d, err)
 		}
+		if r.chans {
+			chanRanges = chanRangeLoops(*repo, d)
+		} else {
+			chanRanges = nil
+		}
 		for _, e := range ents {
 			n := e.Name()
 			if e.IsDir() || !strings.HasSuffix(n, ".go") || strings.HasSuffix(n, "_test.go") {
@@ -100,11 +111,189 @@ func main() {
 	// gorilla/websocket guards its writes with a one-slot channel used as a mutex; a goroutine waiting for it
 	// blocks in the Go runtime, outside the controlled scheduler. Its three uses become scheduling points.
 	gorillaMutex(*repo, *out, replace)
+	// helper packages of golang.org/x/sync block in sync primitives of their own: inside a controlled execution
+	// they have to block as threads of the execution
+	modulePackages(*repo, *out, replace, "golang.org/x/sync", []string{"singleflight", "errgroup", "semaphore"}, rules{sync: true, gostmt: true, chans: true})
 	j, _ := json.MarshalIndent(map[string]any{"Replace": replace}, "", " ")
 	if err := os.WriteFile(filepath.Join(*out, "overlay.json"), j, 0o644); err != nil {
 		die("%v", err)
 	}
 	fmt.Printf("overlaygen: %d files rewritten\n", len(replace))
+}
+
+// chanRanges: per file, the offsets of the `for` keyword of range loops over channels (from the type check).
+var chanRanges map[string]map[int]bool
+
+// chanRangeLoops type-checks one package of the repository (against the export data of its dependencies, as
+// `go list -export` provides it) and returns the range loops whose operand is a channel.
+func chanRangeLoops(repo, dir string) map[string]map[int]bool {
+	out := map[string]map[int]bool{}
+	run := func(args ...string) string {
+		cmd := exec.Command("go", args...)
+		cmd.Dir = repo
+		b, err := cmd.Output()
+		if err != nil {
+			return ""
+		}
+		return string(b)
+	}
+	files := strings.Fields(run("list", "-tags", "verif", "-f", `{{join .GoFiles " "}}`, "./"+dir))
+	if len(files) == 0 {
+		return out
+	}
+	// only packages that have a range statement at all need the type check
+	fset := token.NewFileSet()
+	var parsed []*ast.File
+	any := false
+	for _, f := range files {
+		pf, err := parser.ParseFile(fset, filepath.Join(repo, dir, f), nil, parser.SkipObjectResolution)
+		if err != nil {
+			return out
+		}
+		parsed = append(parsed, pf)
+		ast.Inspect(pf, func(n ast.Node) bool {
+			if _, ok := n.(*ast.RangeStmt); ok {
+				any = true
+			}
+			return true
+		})
+	}
+	if !any {
+		return out
+	}
+	exports := map[string]string{}
+	for _, l := range strings.Split(run("list", "-tags", "verif", "-export", "-deps", "-f", "{{.ImportPath}}={{.Export}}", "./"+dir), "\n") {
+		if i := strings.IndexByte(l, '='); i > 0 && l[i+1:] != "" {
+			exports[l[:i]] = l[i+1:]
+		}
+	}
+	imp := importer.ForCompiler(fset, "gc", func(path string) (io.ReadCloser, error) {
+		f, ok := exports[path]
+		if !ok {
+			return nil, fmt.Errorf("no export data for %s", path)
+		}
+		return os.Open(f)
+	})
+	info := &types.Info{Types: map[ast.Expr]types.TypeAndValue{}}
+	conf := types.Config{Importer: imp, Error: func(error) {}}
+	conf.Check(dir, fset, parsed, info)
+	for _, pf := range parsed {
+		ast.Inspect(pf, func(n ast.Node) bool {
+			rs, ok := n.(*ast.RangeStmt)
+			if !ok {
+				return true
+			}
+			if tv, ok := info.Types[rs.X]; ok && tv.Type != nil {
+				if _, isChan := tv.Type.Underlying().(*types.Chan); isChan {
+					pos := fset.Position(rs.For)
+					if out[pos.Filename] == nil {
+						out[pos.Filename] = map[int]bool{}
+					}
+					out[pos.Filename][pos.Offset] = true
+				}
+			}
+			return true
+		})
+	}
+	return out
+}
+
+// rangeLoops rewrites the loops over channels: the header `for v := range ch {` becomes
+// `for { v, vsOk := vsched.ChanRecv2(ch); if !vsOk { break }; ` (same line).
+func rangeLoops(name string, src []byte, at map[int]bool) []byte {
+	fset := token.NewFileSet()
+	f, err := parser.ParseFile(fset, name, src, parser.ParseComments|parser.SkipObjectResolution)
+	if err != nil {
+		die("parse %s: %v", name, err)
+	}
+	off := func(p token.Pos) int { return fset.Position(p).Offset }
+	text := func(n ast.Node) string { return string(src[off(n.Pos()):off(n.End())]) }
+	var eds []edit
+	ast.Inspect(f, func(n ast.Node) bool {
+		rs, ok := n.(*ast.RangeStmt)
+		if !ok || !at[off(rs.For)] {
+			return true
+		}
+		recv := fmt.Sprintf("vsched.ChanRecv2(%s)", text(rs.X))
+		var hd string
+		switch {
+		case rs.Key == nil:
+			hd = fmt.Sprintf("for { _, vsOk := %s; if !vsOk { break }; ", recv)
+		case rs.Tok == token.DEFINE:
+			hd = fmt.Sprintf("for { %s, vsOk := %s; if !vsOk { break }; _ = %s; ", text(rs.Key), recv, text(rs.Key))
+		default:
+			hd = fmt.Sprintf("for { vsV, vsOk := %s; if !vsOk { break }; %s = vsV; ", recv, text(rs.Key))
+		}
+		eds = append(eds, edit{off(rs.For), off(rs.Body.Lbrace) + 1, hd})
+		return true
+	})
+	sort.Slice(eds, func(a, b int) bool { return eds[a].start > eds[b].start })
+	out := append([]byte{}, src...)
+	for _, e := range eds {
+		out = append(append(append([]byte{}, out[:e.start]...), []byte(e.text)...), out[e.end:]...)
+	}
+	return out
+}
+
+func modCache() string {
+	cache := os.Getenv("GOMODCACHE")
+	if cache == "" {
+		gp := os.Getenv("GOPATH")
+		if gp == "" {
+			home, _ := os.UserHomeDir()
+			gp = filepath.Join(home, "go")
+		}
+		cache = filepath.Join(gp, "pkg", "mod")
+	}
+	return cache
+}
+
+// modulePackages rewrites packages of a dependency (when the repository's go.mod names the module).
+func modulePackages(repo, out string, replace map[string]string, module string, subdirs []string, r rules) {
+	gm, err := os.ReadFile(filepath.Join(repo, "go.mod"))
+	if err != nil {
+		die("%v", err)
+	}
+	ver := ""
+	for _, l := range strings.Split(string(gm), "\n") {
+		f := strings.Fields(l)
+		if len(f) >= 2 && f[0] == module {
+			ver = f[1]
+		}
+		if len(f) >= 3 && f[0] == "require" && f[1] == module {
+			ver = f[2]
+		}
+	}
+	if ver == "" {
+		return
+	}
+	for _, sd := range subdirs {
+		dir := filepath.Join(modCache(), module+"@"+ver, sd)
+		ents, err := os.ReadDir(dir)
+		if err != nil {
+			continue
+		}
+		for _, e := range ents {
+			n := e.Name()
+			if e.IsDir() || !strings.HasSuffix(n, ".go") || strings.HasSuffix(n, "_test.go") {
+				continue
+			}
+			src := filepath.Join(dir, n)
+			b, err := os.ReadFile(src)
+			if err != nil {
+				die("%v", err)
+			}
+			nb, changed := rewrite(src, b, r)
+			if !changed {
+				continue
+			}
+			dst := filepath.Join(out, strings.NewReplacer("/", "_", ".", "_").Replace(module+"_"+sd)+"_"+n)
+			if err := os.WriteFile(dst, nb, 0o644); err != nil {
+				die("%v", err)
+			}
+			replace[src] = dst
+		}
+	}
 }
 
 func gorillaMutex(repo, out string, replace map[string]string) {
@@ -166,6 +355,10 @@ func rewrite(name string, src []byte, r rules) ([]byte, bool) {
 	changed := false
 	needSched := false
 	fineDone := false
+	if r.chans && len(chanRanges[name]) > 0 {
+		src = rangeLoops(name, src, chanRanges[name])
+		changed, needSched = true, true
+	}
 	for pass := 0; pass < 1000; pass++ {
 		fset := token.NewFileSet()
 		f, err := parser.ParseFile(fset, name, src, parser.ParseComments|parser.SkipObjectResolution)
@@ -294,7 +487,20 @@ func rewrite(name string, src []byte, r rules) ([]byte, bool) {
 				case *ast.GoStmt:
 					c := v.Call
 					if id, ok := c.Fun.(*ast.Ident); ok && builtins[id.Name] {
-						die("%s:%d: go statement with builtin %s is not modelled", name, fset.Position(v.Pos()).Line, id.Name)
+						// go panic(e) and the like: the arguments are evaluated now, the builtin runs in the new thread
+						var lhs, rhs, args []string
+						for i, a := range c.Args {
+							lhs = append(lhs, fmt.Sprintf("vsA%d", i))
+							rhs = append(rhs, oneLine(text(a)))
+							args = append(args, fmt.Sprintf("vsA%d", i))
+						}
+						pre := ""
+						if len(lhs) > 0 {
+							pre = strings.Join(lhs, ", ") + " := " + strings.Join(rhs, ", ") + "; "
+						}
+						ed = &edit{off(v.Pos()), off(v.End()), fmt.Sprintf("{ %svsched.Go(%q, func() { %s(%s) }) }", pre, id.Name, id.Name, strings.Join(args, ", "))}
+						needSched = true
+						break
 					}
 					label := strings.Map(func(r rune) rune {
 						if r == '\n' || r == '"' || r == '\\' || r == '\t' {
@@ -478,9 +684,9 @@ func selectText(name string, fset *token.FileSet, src []byte, s *ast.SelectStmt)
 		clauses = append(clauses, fmt.Sprintf("case %d:%s%s", k, bind, body))
 		k++
 	}
-	tail := string(src[off(s.Body.List[len(s.Body.List)-1].End()):off(s.Body.Rbrace)])
-	if len(s.Body.List) == 0 {
-		tail = ""
+	tail := ""
+	if len(s.Body.List) > 0 {
+		tail = string(src[off(s.Body.List[len(s.Body.List)-1].End()):off(s.Body.Rbrace)])
 	}
 	hd := "{ "
 	for _, d := range decls {
